@@ -269,7 +269,7 @@ def _spec_worker(args):
             except Unsupported as exc:
                 out["eqs"].append((str(eq), None))
         # closed form for parameter-free, small specifications
-        if not root.extra_parameters and len(spec.rules_dict) <= 9:
+        if not root.extra_parameters and len(spec.rules_dict) <= (16 if "V" in (cfg.get("gram") or ()) else 9):
             try:
                 g = spec.get_genf()
                 specrun.quiet()
@@ -321,6 +321,10 @@ def run(tier, seed, factor=1):
     for _ in range(common.scale(tier, 8, 60) * factor):  # U-gram variant D (Dyck words): algebraic closed forms, a repeated non-atom factor
         scfgs.append(dict(gram=[grnd.choice(["D", "H", "H"])] + [grnd.choice(["F", "P", "S"]) for _ in range(grnd.choice([0, 0, 1]))], gram_flat=True, alpha="ab",
                           db=grnd.choice(["RuleDB", "RuleDBForgetStrategy", "RuleDBForest"]), seed=grnd.randrange(10**6), perc=grnd.choice([100, 20, 1]),
+                          smallest=False, expand_verified=False))
+    vrnd = random.Random(seed * 49979687 + 20)
+    for _ in range(common.scale(tier, 2, 8)):  # U-gram variant V: a reverse union rule inside an algebraic system (forest store only)
+        scfgs.append(dict(gram=["V"], gram_flat=True, alpha="ab", db="RuleDBForest", seed=vrnd.randrange(10**6), perc=vrnd.choice([100, 20]),
                           smallest=False, expand_verified=False))
     souts = specrun.pool_map(spec_worker, [(c, N) for c in scfgs])
     specrun.quiet()
